@@ -20,6 +20,8 @@ def run(ctx: Ctx) -> None:
     t16_losses.run_weight_shapes(ctx)
     t16_losses.run_definitions(ctx)
     t16_losses.run_module_functional(ctx)
+    t16_losses.run_invariances(ctx)
+    ctx.floor("T16.invariance", 2)
     ctx.floor("T16.module-functional", 10)
     ctx.floor("T16.definition", 2)
     ctx.floor("T16.mask", 6)
